@@ -62,6 +62,9 @@ func algoReport(c *Ctx, prop string, cs algoCase, v algoVerdict, compareModel bo
 		if prop == "C03" && k2Classifier(cs, v.Ans) {
 			known = "K2"
 		}
+		if prop == "C02" && cs.Fn == 7 && len(cs.Pat) == 0 && len(bad) == 1 && bad[0] == 4 {
+			known = "K3" // EqualMatch answers "no match" to the empty pattern whatever the text
+		}
 		if known == "" {
 			cs, v = shrinkAlgo(c, prop, cs, v, mine)
 			bad = bad[:0]
